@@ -110,7 +110,7 @@ func (st *State) clone() *State {
 	n.script = make([]entry, len(st.script))
 	copy(n.script, st.script)
 	for i := range n.script {
-		if n.script[i].kind == 'c' {
+		if n.script[i].kind == 'c' || n.script[i].kind == 'v' {
 			n.script[i].inherited = true
 		}
 	}
@@ -1061,6 +1061,13 @@ func (x *Exec) step(st *State, ins ssa.Instruction) {
 		fr.regs[ins] = Val{S: p, T: ins.Type()}
 		next()
 	case *ssa.MakeSlice:
+		if ins.Cap != ins.Len {
+			lc, ok1 := ins.Len.(*ssa.Const)
+			cc, ok2 := ins.Cap.(*ssa.Const)
+			if !(ok1 && ok2 && lc.Value != nil && cc.Value != nil && constant.Compare(lc.Value, token.EQL, cc.Value)) {
+				panic(unsupported("make([]T, len, cap) with spare capacity at " + site + ": appends would write into storage shared between slice values, which the value model of slices does not cover"))
+			}
+		}
 		lv := x.val(st, ins.Len)
 		stt := ins.Type().Underlying().(*types.Slice)
 		sn := cx.sortOf(ins.Type())
